@@ -23,6 +23,7 @@
      20 expected SshfpAlgorithm  21 expected SshfpType  22 expected TlsaCertificateUsage
      23 expected TlsaSelector  24 expected TlsaMatchingType
      25 trailing Base 64 data  26 illegal Base 64 data  27 incomplete Base 64 data
+     28 generic data has incorrect length
      99 record type / syntax outside the model *)
 From Coq Require Import NArith List Bool Arith.
 From DV Require Import Base.Outcome Base.Bytes C07.Gen.
@@ -908,11 +909,73 @@ Fixpoint scan_fields (origin : option (list N)) (fs : list field) (s : sbuf) (ac
 
 Definition scan_rdata (origin : option (list N)) (rtype : N) (s : sbuf) : outcome (list N * sbuf) :=
   do ms <- skip_unknown_marker s;
-  if fst ms then Err 99
+  if fst ms then
+    (* UnknownRecordData::scan_without_marker *)
+    do ls <- scan_uint 65535 int_add_checked (snd ms);
+    do ds <- convert_entry_hex (snd ls);
+    if N.of_nat (length (fst ds)) =? fst ls then Ok ds else Err 28
   else match schema rtype with
        | Some fs => scan_fields origin fs (snd ms) []
        | None => Err 99
        end.
+
+(* A record type's scan as a sequence of Scanner-method calls (results dropped):
+   the protocol whose invariant makes every assertion unreachable.  MAscii is
+   scan_ascii_str with a closure that accepts everything (a closure that
+   rejects only ends the scan earlier). *)
+Inductive meth := MName | MOctets | MCharstr | MAscii | MUint (maxv : N) (checked : bool)
+  | MCharstrEntry | MHexEntry | MB64Entry.
+
+Definition run_meth (origin : option (list N)) (m : meth) (s : sbuf) : outcome sbuf :=
+  match m with
+  | MName => do r <- scan_name origin s; Ok (snd r)
+  | MOctets => do r <- scan_octets s; Ok (snd r)
+  | MCharstr => do r <- scan_octets s; if Nat.ltb 255 (length (fst r)) then Err 2 else Ok (snd r)
+  | MAscii => do r <- scan_ascii_str (fun _ => Ok tt) s; Ok (snd r)
+  | MUint maxv chk => do r <- scan_uint maxv chk s; Ok (snd r)
+  | MCharstrEntry => do r <- scan_charstr_entry s; Ok (snd r)
+  | MHexEntry => do r <- convert_entry_hex s; Ok (snd r)
+  | MB64Entry => do r <- convert_entry_b64 s; Ok (snd r)
+  end.
+
+(* the method codes of Gen.type_scans (written by T1 from each type's scan) *)
+Definition decode_meth (c : N) : option meth :=
+  if c =? 1 then Some MName else if c =? 2 then Some MOctets else if c =? 3 then Some MCharstr
+  else if c =? 4 then Some MAscii
+  else if c =? 5 then Some (MUint 255 int_add_checked)
+  else if c =? 6 then Some (MUint 65535 int_add_checked)
+  else if c =? 7 then Some (MUint 4294967295 int_add_checked)
+  else if c =? 8 then Some (MUint 4294967295 ttl_add_checked)
+  else if c =? 9 then Some MCharstrEntry else if c =? 10 then Some MHexEntry
+  else if c =? 11 then Some MB64Entry else None.
+
+Fixpoint decode_meths (l : list N) : option (list meth) :=
+  match l with
+  | [] => Some []
+  | c :: t => match decode_meth c, decode_meths t with
+              | Some m, Some ms => Some (m :: ms)
+              | _, _ => None
+              end
+  end.
+
+Definition field_code (f : field) : N :=
+  match f with
+  | FName => 1 | FIpv4 => 2 | FCharstr => 3 | FU8Str _ => 4 | FU16 => 6 | FU32 => 7 | FTtl => 8
+  | FCharstrEntry => 9 | FHexEntry => 10 | FB64Entry => 11
+  end.
+
+Fixpoint run_meths (origin : option (list N)) (ms : list meth) (s : sbuf) : outcome sbuf :=
+  match ms with
+  | [] => Ok s
+  | m :: t => do s' <- run_meth origin m s; run_meths origin t s'
+  end.
+
+(* ZoneRecordData::scan: the RFC 3597 marker first (then UnknownRecordData:
+   a u16 length and hex data), else the type's own sequence *)
+Definition run_type_scan (origin : option (list N)) (ms : list meth) (s : sbuf) : outcome sbuf :=
+  do b <- skip_unknown_marker s;
+  if fst b then run_meths origin [MUint 65535 int_add_checked; MHexEntry] (snd b)
+  else run_meths origin ms (snd b).
 
 Definition scan_owner_record (zs : zstate) (s : sbuf) (owner : list N) (new_owner : bool)
   : outcome (scanned * zstate * sbuf) :=
